@@ -94,7 +94,24 @@ def _line_prefix(b, s):
     if p.startswith(b"\xef\xbb\xbf") and ls == 0:
         p = p[3:]
     # a form feed resets the column count; only what follows the last one is indentation
-    return p.rsplit(b"\x0c", 1)[-1] if p.strip(b" \t\x0c") == b"" else None
+    if p.strip(b" \t\x0c") != b"":
+        return None
+    cur = p.rsplit(b"\x0c", 1)[-1]
+    # physical lines of nothing but blanks and a backslash above it belong to the same logical line: the blanks in front of
+    # the first of those backslashes (if any) are its indentation, whatever the line itself starts with
+    while ls > 0:
+        pe = ls - 1
+        if b[pe:pe + 1] == b"\n" and b[pe - 1:pe] == b"\r":
+            pe -= 1
+        pls = max(b.rfind(b"\n", 0, pe), b.rfind(b"\r", 0, pe)) + 1
+        prev = b[pls:pe]
+        if not prev.endswith(b"\\") or prev[:-1].strip(b" \t\x0c") != b"":
+            break
+        q = prev[:-1].rsplit(b"\x0c", 1)[-1]
+        if q:
+            cur = q
+        ls = pls
+    return cur
 
 
 def template(node, parent, field, b):
